@@ -2,6 +2,7 @@ import GomlVerif.Lemmas.C12Tree
 import GomlVerif.Lemmas.C12Regex
 import GomlVerif.Lemmas.GrammarStep
 import GomlVerif.Lemmas.GrammarKinds
+import GomlVerif.Lemmas.InputViewLemmas
 import GomlVerif.Props.C04
 /-!
 # C12 — the syntax tree is lossless and positions are exact
@@ -435,6 +436,30 @@ theorem parse_lossless (rules : Rules) (errLen : List Char → Nat → Nat)
   · have := diag_ranges_in_text _ ts b b1
     rw [h2] at this
     exact this
+
+/-! ### `Input`: the non-trivia view (`Model/InputView.lean`) -/
+open Goml.InputView in
+/-- **The grammar model sees exactly what `Input` shows the parser.** `Corr all pre rest s`: the real cursor has passed
+`pre` and still has `rest` (all tokens, trivia included), the model state `s` holds the non-trivia kinds and the count of
+those passed. Then `Input::nth(n)` (its loop over `tokens[cursor..]`), `Input::peek()` (after `eat_trivia`) and
+`Input::eof()` answer what the model's `look`/`isEof` answer, `Input::skip()` leads to a corresponding state of `bump`,
+the initial states correspond, and the model's token list is `kindsOf` of the lexer's tokens, whose length is the lexer
+model's `nonTrivia`. -/
+theorem input_view (all pre rest : List Nat) (s : PS) (h : Corr all pre rest s) :
+    (∀ n, s.fuel ≠ 0 → (look s n).1 = InputView.nth rest n) ∧
+    (s.fuel ≠ 0 → (look s 0).1 = (InputView.peek rest).1) ∧
+    s.isEof = (InputView.eof rest).1 ∧
+    (∃ pre', Corr all pre' (InputView.skip rest) (bump s)) ∧
+    Corr all [] all (initPS (view all)) := by
+  refine ⟨?_, ?_, corr_isEof h, corr_skip h, ⟨rfl, rfl, rfl⟩⟩
+  · intro n hf; unfold look; rw [if_neg hf]; exact corr_getD h n
+  · intro hf
+    have : (look s 0).1 = InputView.nth rest 0 := by unfold look; rw [if_neg hf]; exact corr_getD h 0
+    rw [this, nth_eq_view, InputView.peek, eatTrivia_head]
+    cases view rest <;> rfl
+
+theorem kindsOf_eq_view (ts : List Tok) : kindsOf ts = InputView.view (ts.map (·.kind)) := by
+  simp [kindsOf, InputView.view, List.filter_map, Function.comp_def]
 
 end grammar
 
